@@ -255,8 +255,20 @@ class _ReusablePoolExecutor(ProcessPoolExecutor):
                 time.sleep(1e-3)
 
             self._adjust_process_count()
-            processes = list(self._processes.values())
-            while not all(p.is_alive() for p in processes):
+            # Make the executor manager thread aware of the new workers: it
+            # only watches the sentinels of the workers that existed when it
+            # last went to sleep.
+            with self._shutdown_lock:
+                self._executor_manager_thread_wakeup.wakeup()
+            # Wait for the workers to be started. A worker that already left
+            # (idle timeout) is removed from self._processes by the executor
+            # manager thread and a crashed one flags the executor as broken:
+            # re-read the dict at each iteration instead of waiting for ever
+            # on a snapshot that contains a dead process.
+            while (
+                not all(p.is_alive() for p in list(self._processes.values()))
+                and not self._flags.broken
+            ):
                 time.sleep(1e-3)
 
     def _wait_job_completion(self):
